@@ -489,6 +489,29 @@ theorem find_preserves_dissect (s s' : Instance) (str : Bytes) (r : Option View)
     (h : findSubmatchIndex s str = .ok (r, s')) : s'.d = s.d :=
   find_same_dissect h
 
+/-- **Two instances of one compiled pattern do not disturb each other** (two extractor workers):
+for EVERY interleaving of calls to two instances created from the same `Dissect` the run succeeds,
+and what each instance's slices hold after all calls is the specification's answer for the lines
+THAT instance was given, in order – as if the other instance did not exist. -/
+theorem instances_independent (ic : Bool) (p : Pat) (hp : p.Shape) (d : Dissect)
+    (hc : compileEx p.render ic = .ok d) (sched : List (Bool × Bytes)) :
+    ∃ rs a' b', runTwo d.createInstance d.createInstance sched = .ok (rs, a', b') ∧
+      (pick true rs).map (·.map a'.pool.read) =
+        (pick true sched).map (fun l => (specFor ic p l).map (·.map Int.ofNat)) ∧
+      (pick false rs).map (·.map b'.pool.read) =
+        (pick false sched).map (fun l => (specFor ic p l).map (·.map Int.ofNat)) := by
+  obtain ⟨va, a', ha, _⟩ := results_disjoint ic p hp d hc (pick true sched)
+  obtain ⟨vb, b', hb, _⟩ := results_disjoint ic p hp d hc (pick false sched)
+  obtain ⟨rs, hrs⟩ := runTwo_ok sched _ _ va a' vb b' ha hb
+  obtain ⟨h1, h2⟩ := runTwo_split sched _ _ rs a' b' hrs
+  refine ⟨rs, a', b', hrs, ?_, ?_⟩
+  · have := dissect_eq_spec ic p hp d hc (pick true sched)
+    simp only [matchAll, h1, Except.ok.injEq] at this
+    exact this
+  · have := dissect_eq_spec ic p hp d hc (pick false sched)
+    simp only [matchAll, h2, Except.ok.injEq] at this
+    exact this
+
 /-- **Tie to the source (regenerated on every run)**: what `FindSubmatchIndex` and `IntPool.Get` do
 through their receivers, from the Go AST: `FindSubmatchIndex` assigns nothing through `s` (all its
 assignments go to locals and to the fresh slice `ret`), its receiver calls are the two searches and
@@ -612,6 +635,10 @@ example : goIndex ((List.replicate 12 [1, 1, 1, 1, 1, 1, 2]).flatten ++ [1, 1, 3
 example : indexRabinKarp [1, 2, 1, 2, 1, 2, 3] [1, 2, 3] = 4 := by decide
 -- `NoUpper` holds for UTF-8 text without ASCII capitals: `héllo=1`
 example : NoUpper [104, 195, 169, 108, 108, 111, 61, 49] := by decide
+-- two instances, calls interleaved A B A B: each sees only its own lines
+example : (runTwo (compiled false exPat).createInstance (compiled false exPat).createInstance
+    [(true, exLine), (false, []), (true, []), (false, exLine)]).toOption.map (fun t => t.1.map (·.2.isSome)) =
+    some [true, false, false, true] := by decide +kernel
 -- named slots: `k=%{x} %{?s};%{y}` on `ak=1 2;3`: x ↦ 1 ↦ [3,4], y ↦ 2 ↦ [7,8]
 example : (compiled false exPat).groupNames = [([120], 1), ([121], 2)] ∧ (compiled false exPat).groupCount = 2 := by decide
 
